@@ -47,7 +47,7 @@ NoAdvM == [on |-> FALSE, g |-> 0, due |-> -1, cx |-> -1]
 NoFind == [id |-> 0, start |-> -1]
 S0 == [subs |-> [t \in Topics |-> 0], relays |-> [t \in Topics |-> 0], joined |-> {},
        adv |-> [t \in Topics |-> NoAdvM], gt |-> EmptyF, deadg |-> {},
-       find |-> [t \in Topics |-> NoFind], lastStart |-> [t \in Topics |-> -1], apiAt |-> [t \in Topics |-> -1],
+       find |-> [t \in Topics |-> NoFind], lastStart |-> [t \in Topics |-> -1], lastEnd |-> [t \in Topics |-> -1], apiAt |-> [t \in Topics |-> -1],
        en |-> [t \in Topics |-> <<FALSE, FALSE, FALSE, FALSE, FALSE>>], sampled |-> FALSE,
        polled |-> -1, pubs |-> EmptyF, dials |-> EmptyF, exp |-> {},
        shut |-> FALSE, shutAt |-> -1, factory |-> 0, viol |-> {}, drift |-> {}]
@@ -71,7 +71,8 @@ CatchPolls(S, upto) ==
     IF ~cf.disc \/ S.shut THEN S
     ELSE LET tau == NextGrid(S.polled) IN
          IF tau >= upto THEN S
-         ELSE LET bad == {t \in S.joined : ~S.en[t][1] /\ S.find[t].id = 0 /\ S.lastStart[t] # tau}
+         ELSE LET \* (a search that ended at tau itself may still have been "ongoing" when the poll asked: no verdict)
+                  bad == {t \in S.joined : ~S.en[t][1] /\ S.find[t].id = 0 /\ S.lastStart[t] # tau /\ S.lastEnd[t] # tau}
                   S1 == [S EXCEPT !.polled = tau,
                                   !.viol = @ \cup {V("P_X06_c", "starved-not-searched", t, "", tau, 0, 0) : t \in bad}]
               IN  CatchPolls(S1, upto)
@@ -103,7 +104,8 @@ Stim(S, t0) ==
            LET S1 == [S EXCEPT !.relays[t] = @ - 1]
            IN  IF cf.disc /\ ~IntOn(S1, t) THEN StopInterest(S1, t, t0) ELSE S1
       [] a = "join" -> [S EXCEPT !.joined = @ \cup {t}]
-      [] a = "closeTopic" /\ ~IntOn(S, t) /\ Running(S) = {} -> [S EXCEPT !.joined = @ \ {t}]
+      \* (the driver skips Topic.Close while a publish on the topic is pending: Close would block on the topic's lock)
+      [] a = "closeTopic" /\ ~IntOn(S, t) /\ {m \in Running(S) : S.pubs[m].t = t} = {} -> [S EXCEPT !.joined = @ \ {t}]
       [] a = "pub" ->
            [S EXCEPT !.joined = @ \cup {t},
                      !.pubs = Put(@, E.m, [t |-> t, n |-> E.n, start |-> t0, st |-> "run", last |-> -1, lastRes |-> FALSE,
@@ -185,7 +187,7 @@ EvFind(S, e) ==
 EvFindEnd(S, e) ==
     LET t == NsTopic(e.ns) IN
     IF t = "?" THEN S
-    ELSE [S EXCEPT !.find[t] = IF @.id = e.id THEN NoFind ELSE @,
+    ELSE [S EXCEPT !.find[t] = IF @.id = e.id THEN NoFind ELSE @, !.lastEnd[t] = e.t,
                    !.pubs = [m \in DOMAIN @ |-> IF @[m].st = "run" /\ @[m].waitId = e.id
                                                    THEN [@[m] EXCEPT !.cands = @ \cup {e.t + BootSleepMs}, !.waitId = 0] ELSE @[m]]]
 
@@ -209,20 +211,24 @@ EvReady(S, e) ==
         okc == IF cf.disc THEN e.t \in P.cands
                ELSE (IF P.last = -1 THEN e.t = P.start ELSE e.t = P.last + NoDiscTickMs)
         S2 == Chk(S1, okc, V("P_X06_e", IF P.last = -1 THEN "first-evaluation-not-at-call" ELSE "evaluation-cadence", t, e.m, e.t, e.t - P.last, 0))
-        S3 == Chk(S2, P.ctxEnd = -1 \/ e.t <= P.ctxEnd, V("P_X06_e", "evaluation-after-context-end", t, e.m, e.t, 0, 0))
+        S3 == Chk(S2, (P.ctxEnd = -1 \/ e.t <= P.ctxEnd) /\ (P.dl = -1 \/ e.t <= P.dl), V("P_X06_e", "evaluation-after-context-end", t, e.m, e.t, 0, 0))
         \* not ready: a search already in flight answers the request at once (next evaluation 100 ms on); otherwise a
         \* search has to start at this instant (EvFind sets waitId) and the next evaluation is 100 ms after it ends
-        c2 == IF e.res \/ ~cf.disc THEN {} ELSE IF fl.id # 0 THEN {e.t + BootSleepMs} ELSE {}
+        \* (a search of the topic that ended at this very instant may still be "ongoing" for discoverLoop: either way)
+        c2 == IF e.res \/ ~cf.disc THEN {} ELSE IF fl.id # 0 \/ S.lastEnd[t] = e.t THEN {e.t + BootSleepMs} ELSE {}
         w2 == IF ~e.res /\ cf.disc /\ fl.id # 0 /\ fl.start = e.t THEN fl.id ELSE 0
     IN  [S3 EXCEPT !.pubs[e.m] = [P EXCEPT !.last = e.t, !.lastRes = e.res, !.cands = c2, !.waitId = w2,
                                            !.readyAt = IF e.res THEN e.t ELSE @]]
+
+\* the context of a publish has ended by time t (its cancel was a stimulus, its deadline is known from the call)
+Ended(P, t) == P.ctxEnd # -1 \/ (P.dl # -1 /\ t >= P.dl)
 
 EvVal(S, e) ==
     IF e.m \notin DOMAIN S.pubs THEN S
     ELSE LET P == S.pubs[e.m]
              S1 == [S EXCEPT !.pubs[e.m].published = TRUE]
          IN  Chk(S1, P.readyAt = e.t,
-                 V("P_X06_e", IF P.readyAt = -1 /\ (P.ctxEnd # -1 \/ S.shut) THEN "published-after-context-end-without-ready"
+                 V("P_X06_e", IF P.readyAt = -1 /\ (Ended(P, e.t) \/ S.shut) THEN "published-after-context-end-without-ready"
                               ELSE IF P.readyAt = -1 THEN "published-without-ready" ELSE "published-late", P.t, e.m, e.t, P.readyAt, P.ctxEnd))
 
 EvPubCtx(S, e) ==
@@ -238,11 +244,12 @@ EvPubRet(S, e) ==
              S1 == [S EXCEPT !.pubs[e.m].st = "ret"]
          IN  IF e.err = ""
                THEN Chk(S1, P.published /\ P.readyAt = e.t,
-                        V("P_X06_e", IF P.readyAt = -1 /\ (P.ctxEnd # -1 \/ S.shut) THEN "published-after-context-end-without-ready"
+                        V("P_X06_e", IF P.readyAt = -1 /\ (Ended(P, e.t) \/ S.shut) THEN "published-after-context-end-without-ready"
                                      ELSE "returned-nil-without-ready", P.t, e.m, e.t, P.readyAt, P.ctxEnd))
                ELSE LET S2 == Chk(S1, ~P.published, V("P_X06_e", "error-returned-but-published", P.t, e.m, e.t, 0, 0))
-                    IN  Chk(S2, P.ctxEnd = e.t \/ (S.shut /\ S.shutAt = e.t),
-                            V("P_X06_e", IF P.ctxEnd = -1 /\ ~S.shut THEN "error-without-context-end" ELSE "error-not-at-context-end",
+                    \* (without discovery a shutdown is noticed at the next tick of the 200 ms ticker)
+                    IN  Chk(S2, P.ctxEnd = e.t \/ P.dl = e.t \/ (S.shut /\ S.shutAt = e.t) \/ (~cf.disc /\ S.shut /\ e.t <= S.shutAt + NoDiscTickMs),
+                            V("P_X06_e", IF ~Ended(P, e.t) /\ ~S.shut THEN "error-without-context-end" ELSE "error-not-at-context-end",
                               P.t, e.m, e.t, e.t, IF P.ctxEnd # -1 THEN P.ctxEnd ELSE S.shutAt))
 
 NoDisc(S, e) == AddV(S, V("P_X06_g", "service-used-without-discovery", "", e.k, e.t, 0, 0))
@@ -301,8 +308,9 @@ EndChecks(S) ==
                  LET P == S.pubs[m]
                      waiting == (P.waitId # 0 /\ S.find[P.t].id = P.waitId) \/ \E c \in P.cands : c >= now
                      nodisc  == P.last # -1 /\ now < P.last + NoDiscTickMs
-                 IN  IF S.shut THEN {V("P_X06_h", "publish-pending-after-shutdown", P.t, m, now, 0, 0)}
-                     ELSE IF P.ctxEnd # -1 /\ P.ctxEnd < now THEN {V("P_X06_e", "publish-pending-after-context-end", P.t, m, now, now, P.ctxEnd)}
+                 IN  IF S.shut /\ ~(~cf.disc /\ nodisc) THEN {V("P_X06_h", "publish-pending-after-shutdown", P.t, m, now, 0, 0)}
+                     ELSE IF S.shut THEN {}
+                     ELSE IF (P.ctxEnd # -1 /\ P.ctxEnd < now) \/ (P.dl # -1 /\ P.dl < now) THEN {V("P_X06_e", "publish-pending-after-context-end", P.t, m, now, now, P.ctxEnd)}
                      ELSE IF P.lastRes THEN {V("P_X06_e", "publish-pending-after-ready", P.t, m, now, 0, 0)}
                      ELSE IF (cf.disc /\ ~waiting) \/ (~cf.disc /\ ~nodisc) THEN {V("P_X06_e", "bootstrap-stuck", P.t, m, now, P.last, 0)}
                      ELSE {}
